@@ -214,8 +214,19 @@ def check_bulk(chk, it, tabs, configs):
             r = e.a[1] if e.k == 'assign' else e
             while r.k == 'cast':
                 r = r.a[0]
-            ok = ok and r.k == 'member' and r.x[0] == 'pages'
-            chk.expect(ok, 'R05.4', inst + ':pages', 'memory.size template is %r, expected <new top> = (*i->m0).pages' % (e,), site)
+            if r.k == 'member':
+                ok = ok and r.x[0] == 'pages'
+            elif r.k == 'call' and r.x in htu.functions and len(r.a) == 1 and mr.mem_ref_ok(r.a[0]):
+                # accessor function: every path must return the page count field
+                def mk(it2):
+                    mem = {'v': runtime.memory_record(it2)}
+                    return [Ptr(mem, 'v')], {}
+                ps = runtime.summarize(htu, r.x, mk)
+                ok = ok and ps and all(p.ret == unk('pages') for p in ps if not p.aborted)
+                chk.fn(r.x)
+            else:
+                ok = False
+            chk.expect(ok, 'R05.4', inst + ':pages', 'memory.size template is %r, expected <new top> = the current page count of i->m0' % (e,), site)
             continue
         dst, call, casts = mr.parse_call_template(tu, fn)
         args = list(call.a)
